@@ -1,5 +1,6 @@
 import SlipVerif.Model.JsonLisp
 import SlipVerif.Lemmas.JsonPath
+import SlipVerif.Lemmas.JsonLisp
 /-
   C18 — property theorems about the JSON model (Model/Json.lean, JsonText.lean, JsonLisp.lean),
   the model the correspondence harness (harness/cmd/vh/c18*.go) runs against the implementation.
@@ -160,5 +161,53 @@ theorem get_remove_disjoint (pre : Path) (last : Step) (q : Path) (j j' : J) (hd
   rw [remove_definite pre last j hd hl] at h
   cases h
   exact modifyAt_removeStep_apart last pre hd hl q j ha
+
+/-! ## bag → native Lisp → bag -/
+
+/-- Inside the guard (no `false`, no empty array or object anywhere, object keys unique) a bag
+    converted with `bag-native` and converted back (`make-bag`, `bag-set`, `:set`) is the same bag. -/
+theorem native_roundtrip (j : J) (h : Faithful j = true) : ofLisp (toLisp j) = .ok j :=
+  ofLisp_toLisp j h
+
+example : Faithful (obj [("a", arr [.int 1, .null, .str "", obj [("b", .bool true)]]), ("c", .flo "1.5")]) = true := by decide
+
+/-- Outside the guard the documented mapping loses information: Lisp has neither a boolean
+    false nor empty-container values, all of them arrive as `nil` and come back as `null`.
+    (The harness replays these on the implementation: sweep cells of the native family.) -/
+theorem native_roundtrip_fails_outside_guard :
+    ofLisp (toLisp (.bool false)) = .ok .null ∧
+    ofLisp (toLisp (arr [])) = .ok .null ∧
+    ofLisp (toLisp (obj [])) = .ok .null ∧
+    ofLisp (toLisp (arr [.int 1, .bool false])) = .ok (arr [.int 1, .null]) ∧
+    ofLisp (toLisp (obj [("a", obj [])])) = .ok (obj [("a", .null)]) :=
+  ⟨rfl, rfl, rfl, rfl, rfl⟩
+
+/-- A Lisp value reaches a bag as `false` only through the symbol `:false` (any case). -/
+theorem ofLisp_false_symbol : ofLisp (.sym ":false") = .ok (.bool false) ∧ ofLisp (.sym ":FALSE") = .ok (.bool false)
+    ∧ ofLisp .nil = .ok .null := ⟨rfl, rfl, rfl⟩
+
+/-! ## plain Go values → Lisp objects → plain Go values -/
+
+/-- `slip.Simplify (slip.SimpleObject v)` returns the same data (integers widened to int64, floats
+    to float64) for nil, true, integers inside int64, floats, strings, times and slices of these. -/
+theorem simplify_roundtrip (g : G) (h : GFaithful g = true) : simplify (simpleObject g) = widen g :=
+  simplify_simpleObject g h
+
+example : GFaithful (.slice [.int 8 (-128), .uint 64 9223372036854775807, .f32 "1.5", .str "x", .time "2024-01-02T03:04:05Z", .nil, .slice []]) = true := by decide
+
+/-- Outside the guard: `false` comes back as nil, a map as a slice of [key value] pairs (an assoc
+    list simplifies to a list; `bag.ObjectToBag` is the documented inverse for maps), an unsigned
+    value above the int64 maximum as its decimal text (a bignum simplifies to text). -/
+theorem simplify_roundtrip_fails_outside_guard :
+    simplify (simpleObject (.bool false)) = .nil ∧
+    simplify (simpleObject (.map [("a", .int 64 1)])) = .slice [.slice [.str "a", .int 64 1]] ∧
+    simplify (simpleObject (.uint 64 9223372036854775808)) = .str (String.ofList (intChars 9223372036854775808)) := by
+  refine ⟨rfl, rfl, ?_⟩
+  simp [simpleObject, simplify, fitsInt64]
+
+/-- Whatever its Go width, an unsigned integer becomes the Lisp integer with the same value
+    (never a negative one). -/
+theorem simpleObject_uint_value (bits v : Nat) (h : bits ≠ 8) : simpleObject (.uint bits v) = .int v := by
+  simp [simpleObject, h]
 
 end SlipVerif.Json
